@@ -1209,9 +1209,9 @@ def run(ctx):
         ctx.log("C07_DEV_NO_LEAN set: Lean obligations NOT checked in this run")
         ctx.broken("dev:no-lean", "C07_DEV_NO_LEAN is set")
     else:
-        proofs_ok = ctx.lean_props(["Holpy.C07.Props"], exes=[EXE])
+        proofs_ok = ctx.lean_props(["Holpy.C07.Props", "Holpy.C07.PropsText", "Holpy.C07.PropsTypes"], exes=[EXE])
         if ctx.tier == "thorough" and proofs_ok:
-            ctx.lean_check_modules(["Holpy.C07.Props"])
+            ctx.lean_check_modules(["Holpy.C07.Props", "Holpy.C07.PropsText", "Holpy.C07.PropsTypes"])
     if ops is None or levels is None:
         # fall back so that the failing-input search can still run
         ops, binders = ops or [], binders or []
@@ -1283,6 +1283,8 @@ def correspondence(ctx, impl, sig, oracle, ops, binders, levels, n):
     except ImportError:
         return
     corr(ctx, impl, sig, oracle, ops, binders, levels, n)
+    from harness.props.c07_lean import type_correspondence
+    type_correspondence(ctx, impl, sig, oracle, n)
 
 
 def replay_corpus(ctx, impl, keywords):
@@ -1391,22 +1393,27 @@ def replay(ctx, rp):
 KEYWORD_NAMES = ["DIV", "INT", "Int", "MOD", "Mem", "O", "SOME", "Sub", "THE", "UN", "Un", "_", "else", "if", "then"]
 
 MANIFEST = {
-    "text": "Lean theorem parse_print: for every precedence-core skeleton (operators of the regenerated syntax/operator.py table, prefix operators, "
-            "application, binders, if, atoms) the bracket rules of the printer are sufficient for a recursive-descent parser driven by the regenerated "
-            "grammar ladder of syntax/parser.py, for every table/ladder pair satisfying an explicit decidable consistency condition that is discharged "
-            "for the generated tables on every run (a priority or associativity changed in only one of the two files breaks it). The real printer and "
-            "parser are tied to the model by differential runs, and the property itself (terms, types, sequents, instantiations with all their components, "
-            "proof items with subproofs; 12 printer settings; memo histories within one theory and across theory changes) is checked by round-trip on "
-            "type-directed generated terms over the library signatures and on all library statements. The theorems are about TOKEN lists: the binder "
-            "spellings of operator.py/pprint.py and the operator spellings are tied to the grammar by table_consistent, but no theorem relates the "
-            "printed TEXT to tokens.",
-    "note": "Trusted: Lean kernel, propext/Classical.choice/Quot.sound; the harness generator, its own alpha-equality and type checker; the regex reader "
-            "of the grammar; Lark's LALR tables and contextual lexer (model parser compared, not proved equal). Not covered by ANY theorem (run-time "
-            "round trip and model-lexer correspondence only): the step from printed text to tokens -- spacing, the '. ' terminal, unary vs binary '-', "
-            "keyword/identifier clashes, NameOK, line breaking (the former lex_drops_whitespace_partial was a one-step unfolding and is no longer claimed); "
-            "minimal type annotations (infer_printed_type), literals, binder renaming, highlight colours, types/sequents/instantiations/proof items. The "
-            "model lexer is a plain longest-match lexer, NOT Lark's contextual lexer: texts such as `INT UN S` (keywords read as identifiers where no "
-            "operator can stand) or `a|-b` parse in Lark and are rejected by the model; the comparison with Lark therefore only counts NameOK texts.",
+    "text": "Lean theorems over regenerated tables (operator/binder table of syntax/operator.py, lambda spelling of pprint.py, rule ladder and ALL literal "
+            "terminals of the grammar in syntax/parser.py). TERMS: parse_print (tokens: the printer's bracket rules suffice for the ladder parser, for "
+            "every TableConsistent table/ladder; table_consistent by decide); lex_print (TEXT: a model of Lark's standard lexer -- %ignore WS, greedy "
+            "CNAME/INT before string terminals, keyword = CNAME spelled like a string terminal, string terminals longest first -- reads the text the "
+            "printer writes without a line limit back as exactly the printer's tokens, for every skeleton whose names are NameOK: identifier or "
+            "numeral shape and no literal terminal; covers the blanks around infix operators, prefix operators written directly before their operand "
+            "(`--x` vs `-->`), `UN `/`THE ` with their blank, binder symbol + name + `. `, brackets, if/then/else; for every terminal list with TextOK, "
+            "text_ok by decide); parse_print_text = their composition (lexer then parser on the printed text gives back the skeleton). TYPES: "
+            "type_parse_print (tokens of print_type: right-nested arrows, postfix constructors, argument tuples, 'a / ?'a; recursive descent for rule "
+            "`type` with Lark's shift preference). SEQUENTS: thm_parse_print (tokens of print_thm `A1, A2 |- C` / `|- C` on top of parse_print; seq_ok "
+            "by decide). Each model is tied to the real code on every run: model printText == real text, model lexer == Lark's real token stream "
+            "(leaves of a keep_all_tokens parse with the same grammar string) on printed and bracket-perturbed texts, model parsers == real parsers "
+            "(terms, types, sequents), NameOK checked by the driver on every generated skeleton. The property itself (all 12 settings, memo histories "
+            "within and across theories, instantiations, proof items) is checked by round trip on type-directed generated terms and all library statements.",
+    "note": "Trusted: Lean kernel, propext/Classical.choice/Quot.sound; the harness generator, its own alpha-equality and type checker; the regex/ast reader "
+            "of grammar, operator.py and pprint.py; Lark's LALR tables. NOT covered by a theorem: the CONTEXTUAL restriction of Lark's lexer (the model is "
+            "the standard lexer; they differ only on texts with keyword-spelled identifiers or e.g. `a|-b`, which NameOK / the printer's spacing exclude -- "
+            "compared at run time); the text level of TYPES and SEQUENTS (their theorems are about tokens; the step from print_type / print_thm text to "
+            "tokens is checked by the correspondence streams only); line-broken layout (model parser run on the broken real texts); instantiations and "
+            "proof items (oracle only); the link term <-> skeleton (projection in the harness: names that are constants of the theory, type annotations, "
+            "literals, binder renaming, over-applied operator heads are outside the modelled core); minimal type annotations; highlight colours.",
     "design_ref": "DESIGN.md 4/C07",
 }
 FINDINGS = [
